@@ -166,23 +166,22 @@ theorem clipRect_is_intersection (x y w h cx cy cw ch : Int) :
     (r.2.2.2.2 = true ↔ ∃ px py, (x ≤ px ∧ px < x + w ∧ y ≤ py ∧ py < y + h) ∧
        (cx ≤ px ∧ px < cx + cw ∧ cy ≤ py ∧ py < cy + ch)) := by
   intro r
-  obtain ⟨h1, h2, h3, h4, h5⟩ := clipRect_spec x y w h cx cy cw ch
+  obtain ⟨h1, h2, h3, h4, h5⟩ : r.1 = max x cx ∧ r.2.1 = max y cy ∧
+      r.1 + r.2.2.1 = min (x + w) (cx + cw) ∧ r.2.1 + r.2.2.2.1 = min (y + h) (cy + ch) ∧
+      (r.2.2.2.2 = true ↔ (r.2.2.1 > 0 ∧ r.2.2.2.1 > 0)) := clipRect_spec x y w h cx cy cw ch
+  clear_value r
   have hp : ∀ px py, (r.1 ≤ px ∧ px < r.1 + r.2.2.1 ∧ r.2.1 ≤ py ∧ py < r.2.1 + r.2.2.2.1) ↔
       ((x ≤ px ∧ px < x + w ∧ y ≤ py ∧ py < y + h) ∧
        (cx ≤ px ∧ px < cx + cw ∧ cy ≤ py ∧ py < cy + ch)) := by
     intro px py
-    show ((clipRect x y w h cx cy cw ch).1 ≤ px ∧ _) ↔ _
     omega
   refine ⟨hp, ?_⟩
-  show (clipRect x y w h cx cy cw ch).2.2.2.2 = true ↔ _
   rw [h5]
   constructor
   · intro hpos
-    exact ⟨r.1, r.2.1, (hp r.1 r.2.1).mp ⟨Int.le_refl _, by show _ < (clipRect x y w h cx cy cw ch).1 + _; omega,
-      Int.le_refl _, by show _ < (clipRect x y w h cx cy cw ch).2.1 + _; omega⟩⟩
+    exact ⟨r.1, r.2.1, (hp r.1 r.2.1).mp ⟨Int.le_refl _, by omega, Int.le_refl _, by omega⟩⟩
   · rintro ⟨px, py, hin⟩
     have := (hp px py).mpr hin
-    change ((clipRect x y w h cx cy cw ch).1 ≤ px ∧ _) at this
     omega
 
 /-- `sraClipRect2` (corner form).  (1) the boolean is `x2' > x' ∧ y2' > y'`; (2) when the two
